@@ -373,4 +373,498 @@ theorem text_literals_as_modelled :
        "{", "{}", "||", "}"] := by
   decide
 
+/-! ## `print_expr_roundtrip`: the printed tokens parse back to the tree (Go's precedence rules)
+
+The grammar (Go spec "Operators", "Primary expressions"; the shape of `go/parser`'s `parseBinaryExpr` /
+`parseUnaryExpr` / `parsePrimaryExpr`) is given as the big-step relation `Parse` over the printer's token
+stream; it is deterministic (`parse_deterministic`), so "`Parse … e rest`" means: this is what a Go parser
+reads.  The subset: identifiers (`Var`, `nil`, `true`/`false`), integer literals (a negative one is `-`
+applied to a literal), calls, selectors, index expressions, the four unary and twelve binary operators.
+Outside it (not in this theorem): type assertions and composite literals (they need the type grammar), string
+and float literals as operands (their token is opaque here; `escape_go_string_decodes` is about the former). -/
+
+/-- what a parser builds: the tree without the back end's type annotations -/
+inductive PE where
+  | ident (x : String)
+  | num (s : String)
+  | paren (e : PE)
+  | un (op : GUn) (e : PE)
+  | bin (op : GBin) (l r : PE)
+  | call (f : PE) (args : List PE)
+  | sel (o : PE) (f : String)
+  | index (a i : PE)
+
+abbrev TS := List (Option Tok)
+
+def unOfSym (s : String) : Option GUn := [GUn.neg, .not, .addr, .deref].find? fun u => unSym u == s
+def binOfSym (s : String) : Option GBin :=
+  [GBin.add, .sub, .mul, .div, .less, .greater, .lessEq, .greaterEq, .eq, .notEq, .and, .or].find? fun b => binSym b == s
+
+theorem unOfSym_unSym (u : GUn) : unOfSym (unSym u) = some u := by cases u <;> decide
+theorem binOfSym_binSym (b : GBin) : binOfSym (binSym b) = some b := by cases b <;> decide
+theorem binPrec_le (b : GBin) : binPrec b ≤ 5 := by cases b <;> decide
+theorem binPrec_pos (b : GBin) : 1 ≤ binPrec b := by cases b <;> decide
+
+/-- precedence of the binary operator at the head of the input, 0 when there is none -/
+def headPrec : TS → Nat
+  | some (.sym s) :: _ => ((binOfSym s).map binPrec).getD 0
+  | _ => 0
+
+/-- does the input continue a primary expression (`.f`, `(args)`, `[i]`)? -/
+def postStart : TS → Bool
+  | some (.sym s) :: _ => s == "." || s == "(" || s == "["
+  | _ => false
+
+inductive NT where
+  | unary | post (x : PE) | bin (p : Nat) | loop (p : Nat) (x : PE) | args | more
+
+inductive Res where
+  | e (x : PE) | es (xs : List PE)
+
+/-- `Parse nt input result rest`: non-terminal `nt` consumes a prefix of `input`, builds `result`, leaves `rest` -/
+inductive Parse : NT → TS → Res → TS → Prop where
+  -- UnaryExpr = unary_op UnaryExpr | PrimaryExpr
+  | u_un {s u ts x r} : unOfSym s = some u → Parse .unary ts (.e x) r → Parse .unary (some (.sym s) :: ts) (.e (.un u x)) r
+  | u_ident {x ts res r} : Parse (.post (.ident x)) ts res r → Parse .unary (some (.ident x) :: ts) res r
+  | u_num {n ts res r} : Parse (.post (.num n)) ts res r → Parse .unary (some (.num n) :: ts) res r
+  | u_paren {s ts x r res r'} : s = "(" → Parse (.bin 1) ts (.e x) (some (.sym ")") :: r) → Parse (.post (.paren x)) r res r' →
+      Parse .unary (some (.sym s) :: ts) res r'
+  -- PrimaryExpr = Operand { Selector | Index | Arguments }
+  | p_sel {s x f ts res r} : s = "." → Parse (.post (.sel x f)) ts res r → Parse (.post x) (some (.sym s) :: some (.ident f) :: ts) res r
+  | p_call {s x ts as r res r'} : s = "(" → Parse .args ts (.es as) r → Parse (.post (.call x as)) r res r' →
+      Parse (.post x) (some (.sym s) :: ts) res r'
+  | p_index {s x ts i r res r'} : s = "[" → Parse (.bin 1) ts (.e i) (some (.sym "]") :: r) → Parse (.post (.index x i)) r res r' →
+      Parse (.post x) (some (.sym s) :: ts) res r'
+  | p_stop {x ts} : postStart ts = false → Parse (.post x) ts (.e x) ts
+  -- parseBinaryExpr(prec1): a unary expression, then every operator of precedence ≥ prec1, each with a right
+  -- operand parsed at its own precedence + 1 (left associativity)
+  | b {p ts x r res r'} : Parse .unary ts (.e x) r → Parse (.loop p x) r res r' → Parse (.bin p) ts res r'
+  | l_step {p x s b ts y r res r'} : binOfSym s = some b → p ≤ binPrec b → Parse (.bin (binPrec b + 1)) ts (.e y) r →
+      Parse (.loop p (.bin b x y)) r res r' → Parse (.loop p x) (some (.sym s) :: ts) res r'
+  | l_stop {p x ts} : headPrec ts < p → Parse (.loop p x) ts (.e x) ts
+  -- Arguments = "(" [ Expression { "," Expression } ] ")"
+  | a_nil {s r} : s = ")" → Parse .args (some (.sym s) :: r) (.es []) r
+  | a_cons {ts a r as r'} : Parse (.bin 1) ts (.e a) r → Parse .more r (.es as) r' → Parse .args ts (.es (a :: as)) r'
+  | m_done {s r} : s = ")" → Parse .more (some (.sym s) :: r) (.es []) r
+  | m_more {s ts a r as r'} : s = "," → Parse (.bin 1) ts (.e a) r → Parse .more r (.es as) r' →
+      Parse .more (some (.sym s) :: ts) (.es (a :: as)) r'
+
+def eraseNum (text : String) : PE :=
+  match text.toList with
+  | '-' :: rest => .un .neg (.num (String.ofList rest))
+  | _ => .num text
+
+mutual
+/-- the tree a parser should find in the text of `e` -/
+def erase : GExpr → PE
+  | .nil _ => .ident "nil"
+  | .var x _ => .ident x
+  | .bool b => .ident (if b then "true" else "false")
+  | .int text _ => eraseNum text
+  | .call _ f args => .call (erase f) (eraseList args)
+  | .un op _ e => .un op (erase e)
+  | .bin op _ l r => .bin op (erase l) (erase r)
+  | .field f _ o => .sel (erase o) f
+  | .index _ a i => .index (erase a) (erase i)
+  | _ => .ident "<outside the subset>"
+def eraseList : List GExpr → List PE
+  | [] => []
+  | e :: es => erase e :: eraseList es
+end
+
+def numOK (text : String) : Bool :=
+  match text.toList with
+  | '-' :: rest => !(String.ofList rest).isEmpty
+  | _ => !text.isEmpty
+
+mutual
+/-- the operator subset of this theorem (names and literal texts not empty: `RcDoc::text("")` prints no token) -/
+def inSubset : GExpr → Bool
+  | .nil _ => true
+  | .bool _ => true
+  | .var x _ => !x.isEmpty
+  | .int text _ => numOK text
+  | .call _ f args => inSubset f && inSubsetList args
+  | .un _ _ e => inSubset e
+  | .bin _ _ l r => inSubset l && inSubset r
+  | .field f _ o => !f.isEmpty && inSubset o
+  | .index _ a i => inSubset a && inSubset i
+  | _ => false
+def inSubsetList : List GExpr → Bool
+  | [] => true
+  | e :: es => inSubset e && inSubsetList es
+end
+
+/-! ### token streams of the printer's documents -/
+
+@[simp] theorem items_append (a b : Doc) : (a ++ b).items = a.items ++ b.items := by
+  show (Doc.append a b).items = _
+  cases a <;> cases b <;> simp [Doc.append, Doc.items]
+
+theorem items_tokD {t : Tok} (h : t.text.isEmpty = false) : (tokD t).items = [some t] := by
+  simp [tokD, h, Doc.items]
+
+@[simp] theorem items_sp : Doc.sp.items = [] := rfl
+
+theorem items_sym_un (u : GUn) : (sym (unSym u)).items = [some (.sym (unSym u))] := by cases u <;> decide
+theorem items_sym_bin (b : GBin) : (sym (binSym b)).items = [some (.sym (binSym b))] := by cases b <;> decide
+
+theorem items_foldl (sep : Doc) : ∀ (ds : List Doc) (acc : Doc),
+    (ds.foldl (fun acc x => acc ++ sep ++ x) acc).items = acc.items ++ ds.flatMap (fun x => sep.items ++ x.items) := by
+  intro ds
+  induction ds with
+  | nil => intro acc; simp
+  | cons d ds ih => intro acc; simp [List.foldl, ih, List.flatMap_cons]
+
+theorem items_intersperse_cons (sep d : Doc) (ds : List Doc) :
+    (intersperse sep (d :: ds)).items = d.items ++ ds.flatMap (fun x => sep.items ++ x.items) := by
+  simp [intersperse, items_foldl]
+
+/-! ### the round trip -/
+
+def RT1 (e : GExpr) : Prop :=
+  ∀ rest res r', Parse (.post (erase e)) rest res r' → Parse .unary ((exprDoc e).items ++ rest) res r'
+def RT2 (e : GExpr) : Prop :=
+  ∀ rest, postStart rest = false → Parse .unary ((exprDoc e).items ++ rest) (.e (erase e)) rest
+def RT3 (e : GExpr) : Prop :=
+  ∀ p, p ≤ level e → p ≤ 6 → ∀ rest res r', postStart rest = false → headPrec rest ≤ level e →
+    Parse (.loop p (erase e)) rest res r' → Parse (.bin p) ((exprDoc e).items ++ rest) res r'
+
+theorem rt2_of_rt1 {e} (h : RT1 e) : RT2 e := fun rest hr => h rest _ _ (.p_stop hr)
+theorem rt3_of_rt2 {e} (h : RT2 e) : RT3 e := fun _ _ _ rest _ _ hr _ hl => .b (h rest hr) hl
+
+/-- the statement proved by induction: as the base of a postfix form (level 7), as a unary operand (level ≥ 6),
+    as a binary operand at any precedence the expression's level allows -/
+structure RT (e : GExpr) : Prop where
+  post : level e = 7 → RT1 e
+  unary : 6 ≤ level e → RT2 e
+  bin : RT3 e
+
+theorem rt_of_rt1 {e} (h : RT1 e) : RT e := ⟨fun _ => h, fun _ => rt2_of_rt1 h, rt3_of_rt2 (rt2_of_rt1 h)⟩
+theorem rt_of_rt2 {e} (h6 : level e = 6) (h : RT2 e) : RT e :=
+  ⟨fun h7 => by omega, fun _ => h, rt3_of_rt2 h⟩
+
+theorem level_le (e : GExpr) : level e ≤ 7 := by
+  cases e <;> simp only [level] <;> first | omega | (split <;> omega) | (rename_i op _ _ _; have := binPrec_le op; omega)
+theorem level_pos (e : GExpr) : 1 ≤ level e := by
+  cases e <;> simp only [level] <;> first | omega | (split <;> omega) | (rename_i op _ _ _; have := binPrec_pos op; omega)
+
+theorem headPrec_binSym (b : GBin) (rest : TS) : headPrec (some (.sym (binSym b)) :: rest) = binPrec b := by
+  show ((binOfSym (binSym b)).map binPrec).getD 0 = _
+  rw [binOfSym_binSym]; rfl
+theorem postStart_binSym (b : GBin) (rest : TS) : postStart (some (.sym (binSym b)) :: rest) = false := by
+  show (binSym b == "." || binSym b == "(" || binSym b == "[") = false
+  cases b <;> decide
+theorem headPrec_closer (s : String) (hs : binOfSym s = none) (rest : TS) : headPrec (some (.sym s) :: rest) = 0 := by
+  show ((binOfSym s).map binPrec).getD 0 = 0
+  rw [hs]; rfl
+
+def commaItems : TS := (sym "," ++ Doc.sp).items
+theorem commaItems_eq : commaItems = [some (.sym ",")] := by decide
+
+/-- the tokens of the 2nd, 3rd, … argument, each preceded by its comma -/
+def moreItems (ds : List Doc) : TS := ds.flatMap fun x => commaItems ++ x.items
+
+theorem moreItems_head (ds : List Doc) (rest : TS) :
+    postStart (moreItems ds ++ some (.sym ")") :: rest) = false ∧ headPrec (moreItems ds ++ some (.sym ")") :: rest) = 0 := by
+  cases ds with
+  | nil => exact ⟨rfl, headPrec_closer ")" (by decide) rest⟩
+  | cons d ds =>
+    simp only [moreItems, List.flatMap_cons, commaItems_eq, List.cons_append, List.nil_append, List.append_assoc]
+    exact ⟨rfl, headPrec_closer "," (by decide) _⟩
+
+theorem items_numDoc_neg {text : String} {rest : List Char} (h : text.toList = '-' :: rest)
+    (hne : (String.ofList rest).isEmpty = false) :
+    (numDoc text).items = [some (.sym "-"), some (.num (String.ofList rest))] := by
+  unfold numDoc
+  rw [h]
+  simp only [items_append]
+  rw [items_tokD (t := .num (String.ofList rest)) hne]
+  rfl
+
+mutual
+theorem rt : ∀ e : GExpr, inSubset e = true → exprParenFree e = true → RT e
+  | .nil t, _, _ => rt_of_rt1 (by
+      intro rest res r' h
+      rw [show (exprDoc (GExpr.nil t)).items = [some (.ident "nil")] from by rw [exprDoc]; decide]
+      exact .u_ident h)
+  | .bool b, _, _ => rt_of_rt1 (by
+      intro rest res r' h
+      cases b
+      · rw [show (exprDoc (GExpr.bool false)).items = [some (.ident "false")] from by rw [exprDoc]; decide]
+        exact .u_ident h
+      · rw [show (exprDoc (GExpr.bool true)).items = [some (.ident "true")] from by rw [exprDoc]; decide]
+        exact .u_ident h)
+  | .var x t, hs, _ => rt_of_rt1 (by
+      intro rest res r' h
+      have hx : x.isEmpty = false := by simpa [inSubset] using hs
+      rw [show (exprDoc (GExpr.var x t)).items = [some (.ident x)] from by rw [exprDoc]; exact items_tokD hx]
+      exact .u_ident h)
+  | .int text t, hs, _ => by
+      have hs' : numOK text = true := by simpa [inSubset] using hs
+      cases htl : text.toList with
+      | nil =>
+        have hne : text.isEmpty = false := by simpa [numOK, htl] using hs'
+        refine rt_of_rt1 ?_
+        intro rest res r' h
+        have hi : (exprDoc (GExpr.int text t)).items = [some (.num text)] := by
+          rw [exprDoc]; unfold numDoc; rw [htl]; exact items_tokD hne
+        have he : erase (GExpr.int text t) = .num text := by rw [erase]; unfold eraseNum; rw [htl]
+        rw [hi]; rw [he] at h; exact .u_num h
+      | cons c cs =>
+        by_cases hc : c = '-'
+        · subst hc
+          have hne : (String.ofList cs).isEmpty = false := by simpa [numOK, htl] using hs'
+          refine rt_of_rt2 (by simp [level, isNegText, htl]) ?_
+          intro rest hr
+          have hi := items_numDoc_neg htl hne
+          have he : erase (GExpr.int text t) = .un .neg (.num (String.ofList cs)) := by
+            simp [erase, eraseNum, htl]
+          rw [exprDoc, hi, he]
+          exact .u_un (by decide) (.u_num (.p_stop hr))
+        · have hne : text.isEmpty = false := by
+            unfold numOK at hs'; rw [htl] at hs'; split at hs'
+            · rename_i heq; injection heq with h1 _; exact absurd h1 hc
+            · simpa using hs'
+          refine rt_of_rt1 ?_
+          intro rest res r' h
+          have hi : (exprDoc (GExpr.int text t)).items = [some (.num text)] := by
+            rw [exprDoc]; unfold numDoc; rw [htl]; split
+            · rename_i heq; injection heq with h1 _; exact absurd h1 hc
+            · exact items_tokD hne
+          have he : erase (GExpr.int text t) = .num text := by
+            rw [erase]; unfold eraseNum; rw [htl]; split
+            · rename_i heq; injection heq with h1 _; exact absurd h1 hc
+            · rfl
+          rw [hi]; rw [he] at h; exact .u_num h
+  | .call t f args, hs, hp => rt_of_rt1 (by
+      intro rest res r' h
+      simp only [inSubset, Bool.and_eq_true] at hs
+      simp only [exprParenFree, Bool.and_eq_true, decide_eq_true_eq] at hp
+      have hf7 : level f = 7 := by have := level_le f; omega
+      have hargs := rtArgs args hs.2 hp.2 rest
+      have := (rt f hs.1 hp.1.2).post hf7
+        (some (.sym "(") :: ((intersperse (sym "," ++ Doc.sp) (exprDocs args)).items ++ some (.sym ")") :: rest)) res r'
+        (.p_call rfl hargs (by rw [erase] at h; exact h))
+      rw [exprDoc]
+      simp only [items_append, List.append_assoc]
+      rw [show (sym "(").items = [some (.sym "(")] from by decide, show (sym ")").items = [some (.sym ")")] from by decide]
+      simpa using this)
+  | .field fl t o, hs, hp => rt_of_rt1 (by
+      intro rest res r' h
+      simp only [inSubset, Bool.and_eq_true, Bool.not_eq_true'] at hs
+      simp only [exprParenFree, Bool.and_eq_true, decide_eq_true_eq] at hp
+      have ho7 : level o = 7 := by have := level_le o; omega
+      have := (rt o hs.2 hp.2).post ho7 (some (.sym ".") :: some (.ident fl) :: rest) res r'
+        (.p_sel rfl (by rw [erase] at h; exact h))
+      rw [exprDoc]
+      simp only [items_append, List.append_assoc]
+      rw [show (sym ".").items = [some (.sym ".")] from by decide, show (ident fl).items = [some (.ident fl)] from items_tokD hs.1]
+      simpa using this)
+  | .index t a i, hs, hp => rt_of_rt1 (by
+      intro rest res r' h
+      simp only [inSubset, Bool.and_eq_true] at hs
+      simp only [exprParenFree, Bool.and_eq_true, decide_eq_true_eq] at hp
+      have ha7 : level a = 7 := by have := level_le a; omega
+      have hi : Parse (.bin 1) ((exprDoc i).items ++ some (.sym "]") :: rest) (.e (erase i)) (some (.sym "]") :: rest) :=
+        (rt i hs.2 hp.2).bin 1 (level_pos i) (by omega) _ _ _ rfl
+          (by rw [headPrec_closer "]" (by decide)]; omega)
+          (.l_stop (by rw [headPrec_closer "]" (by decide)]; omega))
+      have := (rt a hs.1 hp.1.2).post ha7 (some (.sym "[") :: ((exprDoc i).items ++ some (.sym "]") :: rest)) res r'
+        (.p_index rfl hi (by rw [erase] at h; exact h))
+      rw [exprDoc]
+      simp only [items_append, List.append_assoc]
+      rw [show (sym "[").items = [some (.sym "[")] from by decide, show (sym "]").items = [some (.sym "]")] from by decide]
+      simpa using this)
+  | .un op t e, hs, hp => rt_of_rt2 rfl (by
+      intro rest hr
+      simp only [inSubset] at hs
+      simp only [exprParenFree, Bool.and_eq_true, decide_eq_true_eq] at hp
+      have := (rt e hs hp.2).unary hp.1.1 rest hr
+      rw [exprDoc, erase]
+      simp only [items_append, List.append_assoc, items_sym_un]
+      exact .u_un (unOfSym_unSym op) this)
+  | .bin op t l r, hs, hp => by
+      simp only [inSubset, Bool.and_eq_true] at hs
+      simp only [exprParenFree, Bool.and_eq_true, decide_eq_true_eq] at hp
+      obtain ⟨⟨⟨hql, hqr⟩, hpl⟩, hpr⟩ := hp
+      have hq5 := binPrec_le op
+      refine ⟨fun h7 => by simp only [level] at h7; omega, fun h6 => by simp only [level] at h6; omega, ?_⟩
+      intro p hp hp6 rest res r' hr hh hl
+      simp only [level] at hp hh
+      have hR : Parse (.bin (binPrec op + 1)) ((exprDoc r).items ++ rest) (.e (erase r)) rest :=
+        (rt r hs.2 hpr).bin (binPrec op + 1) (by omega) (by omega) rest _ _ hr (by omega) (.l_stop (by omega))
+      have := (rt l hs.1 hpl).bin p (by omega) hp6 (some (.sym (binSym op)) :: ((exprDoc r).items ++ rest)) res r'
+        (postStart_binSym op _) (by rw [headPrec_binSym]; exact hql)
+        (.l_step (binOfSym_binSym op) hp hR (by rw [erase] at hl; exact hl))
+      rw [exprDoc]
+      simp only [items_append, List.append_assoc, items_sym_bin, items_sp, List.nil_append]
+      simpa using this
+  | .voidv _, hs, _ | .unitv _, hs, _ | .float _ _, hs, _ | .str _, hs, _ | .cast _ _, hs, _ | .slit _ _, hs, _
+  | .alit _ _, hs, _ | .blocke _ _ _, hs, _ => by simp [inSubset] at hs
+theorem rtArgs : ∀ es : List GExpr, inSubsetList es = true → exprsParenFree es = true → ∀ rest : TS,
+    Parse .args ((intersperse (sym "," ++ Doc.sp) (exprDocs es)).items ++ some (.sym ")") :: rest) (.es (eraseList es)) rest
+  | [], _, _ => by
+      intro rest
+      rw [exprDocs, eraseList]
+      exact .a_nil rfl
+  | e :: es, hs, hp => by
+      intro rest
+      simp only [inSubsetList, Bool.and_eq_true] at hs
+      simp only [exprsParenFree, Bool.and_eq_true] at hp
+      rw [exprDocs, eraseList, items_intersperse_cons, List.append_assoc]
+      have hh : postStart (List.flatMap (fun x => (sym "," ++ Doc.sp).items ++ x.items) (exprDocs es) ++ some (.sym ")") :: rest) = false ∧
+          headPrec (List.flatMap (fun x => (sym "," ++ Doc.sp).items ++ x.items) (exprDocs es) ++ some (.sym ")") :: rest) = 0 :=
+        moreItems_head (exprDocs es) rest
+      exact .a_cons
+        ((rt e hs.1 hp.1).bin 1 (level_pos e) (by omega) _ _ _ hh.1 (by rw [hh.2]; omega) (.l_stop (by rw [hh.2]; omega)))
+        (rtMore es hs.2 hp.2 rest)
+theorem rtMore : ∀ es : List GExpr, inSubsetList es = true → exprsParenFree es = true → ∀ rest : TS,
+    Parse .more (moreItems (exprDocs es) ++ some (.sym ")") :: rest) (.es (eraseList es)) rest
+  | [], _, _ => by
+      intro rest
+      rw [exprDocs, eraseList]
+      exact .m_done rfl
+  | e :: es, hs, hp => by
+      intro rest
+      simp only [inSubsetList, Bool.and_eq_true] at hs
+      simp only [exprsParenFree, Bool.and_eq_true] at hp
+      rw [exprDocs, eraseList]
+      have hcons : moreItems (exprDoc e :: exprDocs es) ++ some (.sym ")") :: rest =
+          some (.sym ",") :: ((exprDoc e).items ++ (moreItems (exprDocs es) ++ some (.sym ")") :: rest)) := by
+        simp [moreItems, commaItems_eq]
+      rw [hcons]
+      have hh := moreItems_head (exprDocs es) rest
+      exact .m_more rfl
+        ((rt e hs.1 hp.1).bin 1 (level_pos e) (by omega) _ _ _ hh.1 (by rw [hh.2]; omega) (.l_stop (by rw [hh.2]; omega)))
+        (rtMore es hs.2 hp.2 rest)
+end
+
+/-- **The parentheses the printer emits (none) are sufficient** on paren-free trees: the token stream the
+    layout of `e` produces, followed by any input that neither continues a primary expression nor starts with a
+    binary operator, is read by Go's expression grammar — five binary precedence levels, left associative; unary
+    operators; postfix selector / index / call — as exactly the tree `e` (without its type annotations), and
+    the parser stops at the end of `e`'s tokens.  `exprParenFree` is what the hypothesis costs: the back end must
+    only build trees whose operands already bind tightly enough (checked per item by the tie, oracle
+    `go-printer-model`). -/
+theorem print_expr_roundtrip (e : GExpr) (hs : inSubset e = true) (hp : exprParenFree e = true)
+    (rest : TS) (hr : postStart rest = false) (hh : headPrec rest = 0) :
+    Parse (.bin 1) ((exprDoc e).items ++ rest) (.e (erase e)) rest :=
+  (rt e hs hp).bin 1 (level_pos e) (by omega) rest _ _ hr (by omega) (.l_stop (by omega))
+
+theorem print_expr_roundtrip_whole (e : GExpr) (hs : inSubset e = true) (hp : exprParenFree e = true) :
+    Parse (.bin 1) (exprDoc e).items (.e (erase e)) [] := by
+  simpa using print_expr_roundtrip e hs hp [] rfl rfl
+
+theorem unOfSym_lparen : unOfSym "(" = none := by decide
+theorem postStart_sym (s : String) (ts : TS) : postStart (some (.sym s) :: ts) = (s == "." || s == "(" || s == "[") := rfl
+
+theorem unary_not_closer {s : String} (h : unOfSym s = none) (hs : s ≠ "(") {ts res r} :
+    ¬ Parse .unary (some (.sym s) :: ts) res r := by
+  intro hp
+  cases hp with
+  | u_un hu _ => rw [h] at hu; cases hu
+  | u_paren hs' _ _ => exact hs hs'
+
+theorem headPrec_of {s : String} {b : GBin} (hb : binOfSym s = some b) (ts : TS) :
+    headPrec (some (.sym s) :: ts) = binPrec b := by
+  show ((binOfSym s).map binPrec).getD 0 = _
+  rw [hb]; rfl
+
+/-- the grammar is deterministic: a token stream has at most one reading -/
+theorem parse_deterministic {nt ts res r} (h : Parse nt ts res r) :
+    ∀ {res' r'}, Parse nt ts res' r' → res = res' ∧ r = r' := by
+  induction h with
+  | u_un hu _ ih =>
+    intro res' r' h2
+    cases h2 with
+    | u_un hu' h' => rw [hu] at hu'; cases hu'; obtain ⟨h1, h2⟩ := ih h'; cases h1; exact ⟨rfl, h2⟩
+    | u_paren hs' _ _ => subst hs'; rw [unOfSym_lparen] at hu; cases hu
+  | u_ident _ ih => intro res' r' h2; cases h2 with | u_ident h' => exact ih h'
+  | u_num _ ih => intro res' r' h2; cases h2 with | u_num h' => exact ih h'
+  | u_paren hs _ _ ih1 ih2 =>
+    intro res' r' h2
+    cases h2 with
+    | u_un hu' _ => subst hs; rw [unOfSym_lparen] at hu'; cases hu'
+    | u_paren _ h1' h2' => obtain ⟨e1, e2⟩ := ih1 h1'; cases e1; cases e2; exact ih2 h2'
+  | p_sel hs _ ih =>
+    intro res' r' h2
+    cases h2 with
+    | p_sel _ h' => exact ih h'
+    | p_call hs' _ _ => subst hs; exact absurd hs' (by decide)
+    | p_index hs' _ _ => subst hs; exact absurd hs' (by decide)
+    | p_stop hps => subst hs; rw [postStart_sym] at hps; exact absurd hps (by decide)
+  | p_call hs _ _ ih1 ih2 =>
+    intro res' r' h2
+    cases h2 with
+    | p_sel hs' _ => subst hs; exact absurd hs' (by decide)
+    | p_call _ h1' h2' => obtain ⟨e1, e2⟩ := ih1 h1'; cases e1; cases e2; exact ih2 h2'
+    | p_index hs' _ _ => subst hs; exact absurd hs' (by decide)
+    | p_stop hps => subst hs; rw [postStart_sym] at hps; exact absurd hps (by decide)
+  | p_index hs _ _ ih1 ih2 =>
+    intro res' r' h2
+    cases h2 with
+    | p_sel hs' _ => subst hs; exact absurd hs' (by decide)
+    | p_call hs' _ _ => subst hs; exact absurd hs' (by decide)
+    | p_index _ h1' h2' => obtain ⟨e1, e2⟩ := ih1 h1'; cases e1; cases e2; exact ih2 h2'
+    | p_stop hps => subst hs; rw [postStart_sym] at hps; exact absurd hps (by decide)
+  | p_stop hps =>
+    intro res' r' h2
+    cases h2 with
+    | p_sel hs' _ => subst hs'; rw [postStart_sym] at hps; exact absurd hps (by decide)
+    | p_call hs' _ _ => subst hs'; rw [postStart_sym] at hps; exact absurd hps (by decide)
+    | p_index hs' _ _ => subst hs'; rw [postStart_sym] at hps; exact absurd hps (by decide)
+    | p_stop _ => exact ⟨rfl, rfl⟩
+  | b _ _ ih1 ih2 =>
+    intro res' r' h2
+    cases h2 with
+    | b h1' h2' => obtain ⟨e1, e2⟩ := ih1 h1'; cases e1; cases e2; exact ih2 h2'
+  | l_step hb hp _ _ ih1 ih2 =>
+    intro res' r' h2
+    cases h2 with
+    | l_step hb' _ h1' h2' =>
+      rw [hb] at hb'; cases hb'
+      obtain ⟨e1, e2⟩ := ih1 h1'; cases e1; cases e2; exact ih2 h2'
+    | l_stop hlt => rw [headPrec_of hb] at hlt; omega
+  | l_stop hlt =>
+    intro res' r' h2
+    cases h2 with
+    | l_step hb' hp' _ _ => rw [headPrec_of hb'] at hlt; omega
+    | l_stop _ => exact ⟨rfl, rfl⟩
+  | a_nil hs =>
+    intro res' r' h2
+    cases h2 with
+    | a_nil _ => exact ⟨rfl, rfl⟩
+    | a_cons h1' _ =>
+      subst hs
+      cases h1' with | b hu _ => exact absurd hu (unary_not_closer (by decide) (by decide))
+  | a_cons h1 _ ih1 ih2 =>
+    intro res' r' h2
+    cases h2 with
+    | a_nil hs =>
+      subst hs
+      cases h1 with | b hu _ => exact absurd hu (unary_not_closer (by decide) (by decide))
+    | a_cons h1' h2' =>
+      obtain ⟨e1, e2⟩ := ih1 h1'; cases e1; cases e2
+      obtain ⟨e3, e4⟩ := ih2 h2'; cases e3; exact ⟨rfl, e4⟩
+  | m_done hs =>
+    intro res' r' h2
+    cases h2 with
+    | m_done _ => exact ⟨rfl, rfl⟩
+    | m_more hs' _ _ => subst hs; exact absurd hs' (by decide)
+  | m_more hs _ _ ih1 ih2 =>
+    intro res' r' h2
+    cases h2 with
+    | m_done hs' => subst hs; exact absurd hs' (by decide)
+    | m_more _ h1' h2' =>
+      obtain ⟨e1, e2⟩ := ih1 h1'; cases e1; cases e2
+      obtain ⟨e3, e4⟩ := ih2 h2'; cases e3; exact ⟨rfl, e4⟩
+
+/-- so the reading of the printed text is unique: any parse of it is the tree and stops at the same place -/
+theorem print_expr_roundtrip_unique (e : GExpr) (hs : inSubset e = true) (hp : exprParenFree e = true)
+    (rest : TS) (hr : postStart rest = false) (hh : headPrec rest = 0) {res r}
+    (h : Parse (.bin 1) ((exprDoc e).items ++ rest) res r) : res = .e (erase e) ∧ r = rest := by
+  obtain ⟨h1, h2⟩ := parse_deterministic (print_expr_roundtrip e hs hp rest hr hh) h
+  exact ⟨h1.symm, h2.symm⟩
+
 end Goml.GoPrint
